@@ -23,6 +23,7 @@ theorem inv_step {T : Nat} {s s' : St} {o : Op} (hT : 1 ≤ T) (hi : Inv T s)
   | pong id => exact inv_pong hi h
   | pause => simp only [step, Prod.mk.injEq, and_true] at h; subst h; exact inv_flow true hi
   | resume => simp only [step, Prod.mk.injEq, and_true] at h; subst h; exact inv_flow false hi
+  | stall n => exact inv_stall hT hi h
 
 theorem reach_inv {T : Nat} {s : St} (hT : 1 ≤ T) (hr : Reach (Cfg.real T) s) : Inv T s := by
   induction hr with
@@ -67,10 +68,11 @@ theorem ttInput_drops (T : Nat) (i : TrafficTimer.Input) (hi : i ≠ .interval_e
     cases st <;> cases i <;> simp [TrafficTimer.table, ttOutputs, sendPingResetTimer, sendPing] at hi ⊢
     all_goals (split <;> (try split) <;> (try split) <;> rfl)
 
-theorem step_drops {T : Nat} {s : St} {o : Op} (ho : o ≠ .tick) :
+theorem step_drops {T : Nat} {s : St} {o : Op} (ho : o.clock = none) :
     (step (Cfg.real T) s o).1.drops = s.drops := by
   cases o with
-  | tick => exact absurd rfl ho
+  | tick => simp [Op.clock] at ho
+  | stall n => simp [Op.clock] at ho
   | start => exact mgrInput_drops _ _ _
   | please b => exact mgrInput_drops _ _ _
   | stop => exact mgrInput_drops _ _ _
@@ -124,16 +126,16 @@ theorem step_drops {T : Nat} {s : St} {o : Op} (ho : o ≠ .tick) :
         simp only
         split <;> rw [mgrInput_drops] <;> simpa using h1
 
-/-- a tick either leaves `drops` alone or is the expiry, in state `idle_traffic`, of a timer
-    armed one full interval ago together with a Ping that reached the connection in use and
-    is still unanswered -/
-theorem tick_drop {T : Nat} {s s' : St} (hi : Inv T s)
-    (h : step (Cfg.real T) s .tick = (s', none)) :
+/-- a clock step (on time or late) either leaves `drops` alone or is the expiry, in state
+    `idle_traffic`, of the timer armed when a Ping was handed to the connection in use — at least one
+    full interval ago — and that Ping is still unanswered -/
+theorem stall_drop {T n : Nat} {s s' : St} (hi : Inv T s)
+    (h : step (Cfg.real T) s (.stall n) = (s', none)) :
     s'.drops = s.drops ∨
-    ∃ c p, s.conn = some c ∧ p ∈ s.pings ∧ p ∈ s'.pings ∧ p.wire = some c ∧ p.sent + T = s'.now ∧
-      s.timer = some (s.now + 1) ∧ s'.drops = s.drops ++ [(c, s'.now)] := by
+    ∃ c p, s.conn = some c ∧ p ∈ s.pings ∧ p ∈ s'.pings ∧ p.wire = some c ∧ s.timer = some (p.sent + T) ∧
+      p.sent + T ≤ s'.now ∧ s'.now = s.now + n ∧ s'.drops = s.drops ++ [(c, s'.now)] := by
   obtain ⟨h1, h2, h3, h4, h5, h6, h7, h8, h9, h10, h11, h12, h13⟩ := hi
-  simp only [step, tick] at h
+  simp only [step, stall] at h
   cases htm : s.timer with
   | none => simp [htm] at h; subst h; exact Or.inl rfl
   | some d =>
@@ -144,8 +146,8 @@ theorem tick_drop {T : Nat} {s s' : St} (hi : Inv T s)
       | none => simp_all
       | some b => cases b <;> simp_all
     simp only [htm] at h
-    by_cases hdue : d ≤ s.now + 1
-    · have hde : d = s.now + 1 := by omega
+    by_cases hdue : (d ≤ s.now + n)
+    case pos =>
       simp only [hdue, if_true, timerExpired, ttInput, real_tbl] at h
       rcases htr hl with htr | htr
       · simp [htr, TrafficTimer.table, ttOutputs, sendPingResetTimer, sendPing, ho] at h
@@ -154,14 +156,14 @@ theorem tick_drop {T : Nat} {s s' : St} (hi : Inv T s)
       · simp [htr, TrafficTimer.table, ttOutputs, signalReconnect, hc] at h
         subst h
         obtain ⟨p, hp, hps, hpw⟩ := h11 htr (by simp [htm])
-        refine Or.inr ⟨c, p, hc, hp, hp, ?_, ?_, ?_, rfl⟩
+        refine Or.inr ⟨c, p, hc, hp, hp, ?_, ?_, ?_, rfl, rfl⟩
         · rw [hpw, hc]
+        · rw [hps, hd]
         · simp; omega
-        · rw [hde]
-    · simp [hdue] at h
+    case neg =>
+      simp [hdue] at h
       subst h
       exact Or.inl rfl
-
 
 /-! ### every Ping generated while a connection is in use is written to it -/
 
@@ -181,12 +183,46 @@ theorem mgrInput_pings (b : Bool) (i : Manager.Input) (s : St) : (mgrInput b i s
 
 theorem step_pings {T : Nat} {s s' : St} {o : Op} {c : Nat} (hi : Inv T s) (hc : s.conn = some c)
     (h : step (Cfg.real T) s o = (s', none)) :
-    ∀ p ∈ s'.pings, p ∈ s.pings ∨ (p.wire = some c ∧ p.sent = s'.now ∧ o = .tick) := by
-  have hmg : ∀ b i, step (Cfg.real T) s o = mgrInput b i s → ∀ p ∈ s'.pings, p ∈ s.pings ∨ (p.wire = some c ∧ p.sent = s'.now ∧ o = .tick) := by
+    ∀ p ∈ s'.pings, p ∈ s.pings ∨ (p.wire = some c ∧ p.sent = s'.now ∧ o.clock ≠ none) := by
+  have hmg : ∀ b i, step (Cfg.real T) s o = mgrInput b i s → ∀ p ∈ s'.pings, p ∈ s.pings ∨ (p.wire = some c ∧ p.sent = s'.now ∧ o.clock ≠ none) := by
     intro b i he p hp
     have := mgrInput_pings b i s
     rw [← he, h] at this
     exact Or.inl (this ▸ hp)
+  have hst : ∀ n, step (Cfg.real T) s (.stall n) = (s', none) →
+      ∀ p ∈ s'.pings, p ∈ s.pings ∨ (p.wire = some c ∧ p.sent = s'.now) := by
+    intro n h
+    have hi := hi
+    obtain ⟨h1, h2, h3, h4, h5, h6, h7, h8, h9, h10, h11, h12, h13⟩ := hi
+    simp only [step, stall] at h
+    cases htm : s.timer with
+    | none => simp [htm] at h; subst h; exact fun p hp => Or.inl hp
+    | some d =>
+      obtain ⟨hm, hdr, hd, hnow⟩ := h6 d htm
+      obtain ⟨c', hc', ho, htr⟩ := h4 (by simp [hm, inUse])
+      have hl : s.role = some true := by
+        cases hr : s.role with
+        | none => simp_all
+        | some b => cases b <;> simp_all
+      simp only [htm] at h
+      by_cases hdue : (d ≤ s.now + n)
+      case pos =>
+        simp only [hdue, if_true, timerExpired, ttInput, real_tbl] at h
+        rcases htr hl with htr | htr
+        · simp [htr, TrafficTimer.table, ttOutputs, sendPingResetTimer, sendPing, ho] at h
+          subst h
+          intro p hp
+          simp at hp
+          rcases hp with hp | hp
+          · exact Or.inl hp
+          · subst hp; refine Or.inr ⟨?_, rfl⟩; simp; rw [hc'] at hc; exact Option.some.inj hc
+        · simp [htr, TrafficTimer.table, ttOutputs, signalReconnect, hc'] at h
+          subst h
+          exact fun p hp => Or.inl hp
+      case neg =>
+        simp [hdue] at h
+        subst h
+        exact fun p hp => Or.inl hp
   cases o with
   | start => exact hmg _ _ rfl
   | please b => exact hmg _ _ rfl
@@ -249,34 +285,15 @@ theorem step_pings {T : Nat} {s s' : St} {o : Op} {c : Nat} (hi : Inv T s) (hc :
       all_goals (cases hm : s.mgr <;> simp [hm, Manager.table, mgrOutputs, mgrOutput] at h)
       all_goals (subst h; exact fun p hp => Or.inl hp)
   | tick =>
-    obtain ⟨h1, h2, h3, h4, h5, h6, h7, h8, h9, h10, h11, h12, h13⟩ := hi
-    simp only [step, tick] at h
-    cases htm : s.timer with
-    | none => simp [htm] at h; subst h; exact fun p hp => Or.inl hp
-    | some d =>
-      obtain ⟨hm, hdr, hd, hnow⟩ := h6 d htm
-      obtain ⟨c', hc', ho, htr⟩ := h4 (by simp [hm, inUse])
-      have hl : s.role = some true := by
-        cases hr : s.role with
-        | none => simp_all
-        | some b => cases b <;> simp_all
-      simp only [htm] at h
-      by_cases hdue : d ≤ s.now + 1
-      · simp only [hdue, if_true, timerExpired, ttInput, real_tbl] at h
-        rcases htr hl with htr | htr
-        · simp [htr, TrafficTimer.table, ttOutputs, sendPingResetTimer, sendPing, ho] at h
-          subst h
-          intro p hp
-          simp at hp
-          rcases hp with hp | hp
-          · exact Or.inl hp
-          · subst hp; refine Or.inr ⟨?_, rfl, rfl⟩; simp; rw [hc'] at hc; exact Option.some.inj hc
-        · simp [htr, TrafficTimer.table, ttOutputs, signalReconnect, hc'] at h
-          subst h
-          exact fun p hp => Or.inl hp
-      · simp [hdue] at h
-        subst h
-        exact fun p hp => Or.inl hp
+    intro p hp
+    rcases hst 1 (by rw [← tick_eq_stall]; exact h) p hp with h' | h'
+    · exact Or.inl h'
+    · exact Or.inr ⟨h'.1, h'.2, by simp [Op.clock]⟩
+  | stall n =>
+    intro p hp
+    rcases hst n h p hp with h' | h'
+    · exact Or.inl h'
+    · exact Or.inr ⟨h'.1, h'.2, by simp [Op.clock]⟩
 
 /-! ### nothing but `tick` moves the clock; the TrafficTimer never does -/
 
